@@ -488,6 +488,7 @@ def create_tree_model(id_: str, taxa: dict, arg):
         )
 
         if arg.keep or arg.brlens_init == "tree":
+            kwargs["keep_branch_lengths"] = True
             tree_model = UnRootedTreeModel.json_factory(
                 id_, newick, branch_lengths, "taxa", **kwargs
             )
